@@ -64,7 +64,13 @@ def run(ctx):
     ctx.rule("C07.zero-forcing", "the branch of eval_rhs taken for a vanishing strain rate returns [L·F | 0 | 0] (texture unchanged, F still follows dF/dt = L·F)")
     ctx.rule("C07.history", "an update that raises (unsupported regime, solver failure) leaves the stored history untouched")
     ctx.rule("C07.rhs-div", "every division evaluated in eval_rhs has a constant/guarded denominator (zero strain rate)")
-    I = Interp(ctx.program, perm_chooser=lambda cs: (3, 0, 1, 2))
+    # any ordering will do for the classification of the arms: keys that are identically zero first (consistent with the learnt facts),
+    # the rest in index order, whatever the number of keys being sorted
+    def chooser(keys):
+        zeros = [i for i, k in enumerate(keys) if lift(k).is_zero()]
+        rest = [i for i in range(len(keys)) if i not in zeros]
+        return tuple(zeros + (rest[-1:] + rest[:-1] if len(keys) == 4 and not zeros else rest))
+    I = Interp(ctx.program, perm_chooser=chooser)
     f = public(ctx, I, "pydrex.core.derivatives")
     loc = defloc(ctx, "pydrex.core.derivatives")
     cls = I.resolve("pydrex.core.DeformationRegime")
